@@ -605,6 +605,15 @@ DisconnectF(st, c) ==
                !.cli[c] = ClientDropOf(@)]
 DisconnectEnabled(st, c) == st.srv.cl[c].conn
 
+\* the connection is lost while the backend already tries to reconnect: the client goes to Connecting
+\* (leaving Connected purges its message queues), and later either gives up (Disconnected) or connects
+LoseToConnectingF(st, c) ==
+    [st EXCEPT !.srv.cl[c] = SrvClientInit,
+               !.net[c] = NetInit,
+               !.cli[c] = [ClientDropOf(@) EXCEPT !.status = "Connecting"]]
+GiveUpF(st, c) == [st EXCEPT !.cli[c].status = "Disconnected"]
+GiveUpEnabled(st, c) == st.cli[c].status = "Connecting"
+
 ClientDrop(cs) == ClientDropOf(cs)
 
 \* the server stops: every connection is gone with it (the client entities on the server are
